@@ -190,9 +190,13 @@ def replay_machine(ctx, steps):
 
 # ---------------------------------------------------------------------------------------------
 def dispatch(iso, options):
-    """(constants, time_consts, loader) via the public dispatcher; model prints silenced"""
+    """(constants, time_consts, loader) via the public dispatcher, handing it the caller's dictionary itself (no protective copy)"""
+    from src.scenarios.run_model_no_trade import ScenarioRunnerNoTrade
     with quiet():
-        return model.build_constants(iso, options)
+        r = ScenarioRunnerNoTrade()
+        if options.get("scale") == "global":
+            return r.set_depending_on_option(options, country_data=None)
+        return r.set_depending_on_option(options, country_data=model.country_row(iso, options))
 
 
 def base_options(scale):
@@ -420,6 +424,16 @@ def check_head_reaches_herd(ctx, iso, key, value, case):
     diff = [k for k in set(base.index) | set(got.index)
             if k not in base.index or k not in got.index or not RO.same(base[k], got[k])]
     ctx.event("head_species_present" if base[key] > 0 else "head_species_absent")
+    # an override belongs to one run: the next run without it must see the shipped table again
+    import pandas as pd
+    shipped = pd.read_csv("data/no_food_trade/animal_feed_data/FAOSTAT_head_and_slaughter.csv", index_col="iso3").loc["SWZ" if iso == "SWT" else iso]
+    after = capture_stock_row(iso, {"NMONTHS": 1})
+    for label, row in (("before", base), ("after", after)):
+        stale = [k for k in shipped.index if not RO.same(shipped[k], row[k])]
+        if stale:
+            ctx.fail("head-count-override-outlives-its-run",
+                     "%s: a run without overrides (%s the %s override) sees %s = %r, shipped table has %r" %
+                     (iso, label, key, stale[0], row[stale[0]], shipped[stale[0]]), case)
     if sorted(diff) != [key] or got[key] != value:
         ctx.fail("head-count-override-does-not-reach-the-herd-model-exactly",
                  "%s %s_start=%d: stock row differs in %s (herd sees %s=%r)" % (iso, key, value, sorted(diff)[:5], key, got.get(key)), case)
